@@ -128,6 +128,9 @@ IMP_MODEL = "Zi: !record\n  fields:\n    v%s: int\n"
 MAIN_WITH_IMP = "Ri: !record\n  fields:\n    q%s: Imp.Zi\nP: !protocol\n  sequence:\n    a: Ri\n"
 
 
+FROZEN = {}
+
+
 def scenarios(quick):
     """name -> (initial files, edits[(files, events)], uses_import)"""
     S = {}
@@ -146,6 +149,14 @@ def scenarios(quick):
     S["import-of-import-unfetchable-then-fixed"] = (withimp, [({"imp/_package.yml": IMP_MAN + "imports:\n  - htps://example.invalid/x\n"}, 1), ({"imp/_package.yml": IMP_MAN}, 1),
                                                            ({"main/model.yml": MAIN_WITH_IMP % "d"}, 1)])
     S["version-of-import-unfetchable-then-fixed"] = (withimp, [({"imp/_package.yml": IMP_MAN + "versions:\n  v0: ftp://example.invalid/y\n"}, 1), ({"imp/_package.yml": IMP_MAN}, 1)])
+    S["import-directory-removed-and-restored"] = (withimp, [({}, 1, ["imp"]), ({"imp/_package.yml": IMP_MAN, "imp/model.yml": IMP_MODEL % "a"}, 1),
+                                                         ({"main/model.yml": MAIN_WITH_IMP % "e"}, 1), ({"imp/model.yml": IMP_MODEL % "e"}, 1, [], True)])     # the last edit waits for quiescence
+    nond = {"main/_package.yml": MAN % "" + "  generateNDJson: false\n", "main/model.yml": model(2, "a")}
+    S["python-ndjson-switched-on-later"] = (nond, [({"main/_package.yml": MAN % ""}, 1), ({"main/model.yml": model(2, "g")}, 1)])
+    S["python-section-removed"] = (plain, [({"main/_package.yml": "namespace: Wq\njson:\n  outputDir: ../out/json\n"}, 1), ({"main/model.yml": model(2, "h")}, 1, [], True)])
+    # out/py must stay what a one-shot generate of the initial contents wrote: the model edit waits until every regeneration
+    # that could have read the old manifest is over, so Python output for the new model can only come from stale configuration
+    FROZEN["python-section-removed"] = ("py", 0)
     S["manifest-option-edited"] = (plain, [({"main/_package.yml": MAN % "" + "  generateNDJson: false\n"}, 1), ({"main/model.yml": model(2, "f")}, 1)])
     if not quick:
         S["three-edits"] = (plain, [({"main/model.yml": model(4, "b")}, 1), ({"main/model.yml": model(1, "c")}, 1), ({"main/model.yml": model(3, "d")}, 1)])
@@ -168,8 +179,12 @@ class Scenario:
         self.base = os.path.join(build.scratch(), "c20", name)
         # expected output: one-shot generate of the final contents with the plain binary
         final = dict(initial)
-        for files, _ in edits:
-            final.update(files)
+        states = [dict(final)]
+        for e in edits:
+            for d in (e[2] if len(e) > 2 else []):
+                final = {k: v for k, v in final.items() if not k.startswith(d + "/")}
+            final.update(e[0])
+            states.append(dict(final))
         ref = os.path.join(self.base, "ref")
         shutil.rmtree(ref, ignore_errors=True)
         build.write_tree(ref, final)
@@ -178,6 +193,17 @@ class Scenario:
             raise build.HarnessError("C20 scenario %s: final contents do not generate: %s" % (name, err[-300:]))
         self.expected = tree_hash(os.path.join(ref, "out"))
         self.final = final
+        self.frozen = {}
+        base_name = name.split("+")[0]
+        if base_name in FROZEN:
+            sub, k = FROZEN[base_name]
+            fr = os.path.join(self.base, "frozen")
+            shutil.rmtree(fr, ignore_errors=True)
+            build.write_tree(fr, states[k])
+            rc, out, err = build.yardl(["generate"], cwd=os.path.join(fr, "main"))
+            if rc != 0:
+                raise build.HarnessError("C20 scenario %s: frozen state does not generate: %s" % (name, err[-300:]))
+            self.frozen = {k2: h for k2, h in tree_hash(os.path.join(fr, "out")).items() if k2.startswith(sub + "/")}
         self.n = 0
 
     def run(self, choices, slot):
@@ -185,7 +211,8 @@ class Scenario:
         shutil.rmtree(wd, ignore_errors=True)
         build.write_tree(wd, self.initial)
         sc = {"dir": os.path.join(wd, "main"), "config": [],
-              "edits": [{"files": {os.path.join(wd, k): v for k, v in files.items()}, "events": ev} for files, ev in self.edits]}
+              "edits": [{"files": {os.path.join(wd, k): v for k, v in e[0].items()}, "events": e[1],
+                         "rmdirs": [os.path.join(wd, d) for d in (e[2] if len(e) > 2 else [])], "quiescent": bool(e[3]) if len(e) > 3 else False} for e in self.edits]}
         scp = os.path.join(wd, "scenario.json")
         with open(scp, "w") as f:
             json.dump(sc, f)
@@ -219,6 +246,10 @@ def preemptions(decisions):
     return n
 
 
+STATES = set()
+TRANS = [0]
+
+
 def explore(chk, sc, bound, max_exec, pool):
     """Iterative DFS over schedules: run a prefix, take defaults afterwards, branch on every later decision within the bound."""
     frontier = [[]]
@@ -249,8 +280,17 @@ def explore(chk, sc, bound, max_exec, pool):
                 if dec[i]["chosen"] != c:
                     raise build.HarnessError("C20: replay divergence in %s at %d" % (sc.name, i))
             trace = [d["enabled"][d["chosen"]] for d in dec]
-            chk.nontriv((sc.name, tuple(trace)))
+            # non-trivial: at least two regenerations were in flight at the same time, or an edit landed while one was parked
+            inflight = any(sum(1 for e in d["enabled"] if e.startswith("R")) >= 2 for d in dec) or any(
+                d["enabled"][d["chosen"]] == "env" and any(e.startswith("R") for e in d["enabled"]) for d in dec)
+            if inflight:
+                chk.nontriv((sc.name, tuple(trace)))
+            for i in range(len(dec)):
+                STATES.add((sc.name, tuple(trace[:i])))
+            TRANS[0] += len(dec)
             missing = [k for k, h in sc.expected.items() if r["got"].get(k) != h]
+            # output of a target whose section was removed from the manifest must be left as it was
+            missing += ["%s (rewritten although its target is no longer configured)" % k for k, h in sc.frozen.items() if r["got"].get(k) not in (None, h)]
             okey = ("stale" if missing else "converged", res["alive"])
             outcomes[okey] = outcomes.get(okey, 0) + 1
             chk.outcome((sc.name,) + okey)
@@ -279,18 +319,64 @@ def explore(chk, sc, bound, max_exec, pool):
     return seen, outcomes
 
 
+def race_pass(chk):
+    """Free-running pass under the Go race detector (the cooperative scheduler's hand-offs are happens-before edges, so data
+    races between regenerations can only be seen without it): the plain CLI built with -race watches a real directory while
+    files are saved faster than a regeneration takes. Not an exploration - only a report of the detector counts."""
+    import time
+    out = os.path.join(build.scratch(), "bin", "yardl-race")
+    p = build.run(["go", "build", "-race", "-o", out, "./cmd/yardl"], cwd=build.TOOLING, env=build.goenv())
+    if p.returncode != 0:
+        chk.extra["race_pass"] = "race build failed: " + p.stderr.decode(errors="replace")[-200:]
+        return
+    wd = os.path.join(build.scratch(), "c20", "race")
+    shutil.rmtree(wd, ignore_errors=True)
+    S = scenarios(True)
+    initial, _ = S["import-edited"]
+    build.write_tree(wd, initial)
+    errf = open(os.path.join(wd, "stderr.txt"), "wb")
+    proc = subprocess.Popen([out, "generate", "--watch"], cwd=os.path.join(wd, "main"), stdout=subprocess.DEVNULL, stderr=errf, env=build.run_env())
+    try:
+        time.sleep(1.5)
+        for i in range(60):
+            with open(os.path.join(wd, "main", "model.yml"), "w") as f:
+                f.write(MAIN_WITH_IMP % ("r%d" % i) + model(1 + (i * 7) % 12, "r%d" % i).replace("P: !protocol", "Pz: !protocol"))
+            if i % 3 == 0:
+                with open(os.path.join(wd, "imp", "model.yml"), "w") as f:
+                    f.write(IMP_MODEL % ("r%d" % i))
+            time.sleep(0.004 + (i % 5) * 0.003)
+        time.sleep(3)
+        alive = proc.poll() is None
+    finally:
+        proc.kill()
+        proc.wait()
+        errf.close()
+    txt = open(os.path.join(wd, "stderr.txt"), errors="replace").read()
+    n = txt.count("WARNING: DATA RACE")
+    chk.extra["race_pass"] = {"saves": 60, "data_race_reports": n, "watcher_alive": alive}
+    chk.count()
+    if n:
+        first = txt[txt.index("WARNING: DATA RACE"):][:1500]
+        chk.fail("data-race/free-running-watch", "the Go race detector reports %d data race(s) between goroutines of `yardl generate --watch` while files are saved during regenerations: %s" % (n, first[:600]),
+                 {"report": first})
+    if not alive:
+        chk.fail("watcher-died/free-running-watch", "the race-instrumented watcher exited while files were being saved: %s" % txt[-400:], {"stderr": txt[-1500:]})
+
+
 def main(tier):
     quick = tier == "quick"
     chk = Check("C20", "model_checking", tier,
                 "scenarios (initial package + 1-3 edits incl. invalid intermediate states, edits of an imported package, 1 or 2 file events per edit) x "
                 "every schedule of {parked regenerations, debounce timer, next edit} with <= 2 (quick) / 3 (thorough) preemptions at the points where a "
                 "regeneration touches shared state (cwd read, chdir window, package loaded, koanf, each backend; thorough: + one scenario with a point "
-                "before every output file write); non-trivial = a complete execution (all edits done, timer idle, regenerations finished)")
+                "before every output file write); non-trivial = an execution in which two regenerations were in flight together or an edit landed while a regeneration was parked")
     build.yardl_bin()
     watch_bin()
     bound = 2 if quick else 3
     S = scenarios(quick)
     stats = {}
+    if os.environ.get("C20_RACE_ONLY"):
+        S = {}
     with ThreadPoolExecutor(build.NCPU) as pool:
         for name, (initial, edits) in S.items():
             if os.environ.get("C20_ONLY") and name not in os.environ["C20_ONLY"].split(","):
@@ -298,11 +384,16 @@ def main(tier):
             sc = Scenario(name, initial, edits, False)
             n, outcomes = explore(chk, sc, bound, 4000 if quick else 60000, pool)
             stats[name] = {"executions": n, "outcomes": {"%s/alive=%s" % k: v for k, v in outcomes.items()}}
-        if not quick:
+        if not quick and not os.environ.get("C20_RACE_ONLY"):
             name = "two-edits-large-then-small"
             sc = Scenario(name + "+write-points", S[name][0], S[name][1], True)
             n, outcomes = explore(chk, sc, 2, 60000, pool)
             stats[sc.name] = {"executions": n, "outcomes": {"%s/alive=%s" % k: v for k, v in outcomes.items()}}
+    if not quick:
+        race_pass(chk)
+    chk.extra["states"] = len(STATES)                    # distinct decision points (scenario, schedule prefix) reached
+    chk.extra["transitions"] = TRANS[0]                  # scheduling decisions executed on the real code
+    chk.extra["traces_validated_against_impl"] = chk.evaluations   # every explored schedule is an execution of the implementation
     chk.extra["scenarios"] = stats
     chk.extra["preemption_bound"] = bound
     chk.sample({"scenarios": list(S)[:6]})
